@@ -301,10 +301,12 @@ def check_conc(pid, tier, seed):
                     "preload": 0, "closeAfter": 0, "hotReaders": (2, 8, 4, 1)[k % 4] * NCPU})
     # entries above the 64 KiB read buffer (two ReadAt calls per read): a second reader runs between the two reads of
     # the first one, in the tail and in sealed segments
-    for k, seg in enumerate((1 << 20, 100000)):
+    # ... and the other hand-offs of the pooled read buffer (bigVariants in cmd/concdrive): reader A parked before / after
+    # its n-th ReadAt while reader B completes whole reads, after reads that left their buffers in the pool
+    for k, (seg, var) in enumerate([(s, v) for v in range(8) for s in (1 << 20, 100000)]):
         hot.append({"id": "%s-big%d" % (pid, k), "mode": "bigread", "world": "sim", "prog": [], "nreaders": 2, "readsEach": 1,
                     "withCloser": False, "withStable": False, "segSize": seg, "sched": [], "seed": seed + 17 * k, "preload": 0,
-                    "closeAfter": 0})
+                    "closeAfter": 0, "variant": var})
     htrace, _, _ = run_conc(hot, wd, "hot")
     viols += locate(htrace, judge(htrace, wd, stats))
     stats["hot_reads"] = sum(json.loads(l).get("hotReads", 0) for l in open(htrace) if '"hotReads"' in l)
